@@ -13,8 +13,11 @@ Need(cond, clause, info) == IF cond THEN TRUE ELSE Reject(clause, info)
 
 \* two steps would write the same path: the same file listed twice, or (for compile steps,
 \* whose outputs drop the extension) two sources differing only in the extension
+\* (kinds "gen_<lang>": generated_sources(..., lang=<lang>) - the inputs of moc / lex / yacc / rcc / uic
+\*  keep the whole source name in the generated file's name, like copies)
+CompileKinds == {"executable", "static_library", "shared_library", "object_files"}
 MustFail(e) == \E i, j \in 1..Len(e.sources) : i < j /\
-                  (SameFile(e.d, e.sources[i], e.sources[j]) \/ (e.kind # "copy" /\ ExtClash(e.d, e.sources[i], e.sources[j])))
+                  (SameFile(e.d, e.sources[i], e.sources[j]) \/ (e.kind \in CompileKinds /\ ExtClash(e.d, e.sources[i], e.sources[j])))
 OutOf(e, i) == LET k == CHOOSE k \in 1..Len(e.outs) : e.outs[k].i = i IN e.outs[k].comps
 Contained(cs) == cs # <<>> /\ \A k \in 1..Len(cs) : cs[k] \notin {"..", ""}
 
